@@ -17,7 +17,6 @@ import (
 	"go.minekube.com/gate/pkg/edition/java/proxy/zzverif/bfs"
 	"go.minekube.com/gate/pkg/edition/java/proxy/zzverif/vrt"
 	"go.minekube.com/gate/pkg/gate/proto"
-	"go.minekube.com/gate/pkg/util/uuid"
 )
 
 // ---- independent wire helpers (the raw packet a session handler gets as PacketContext.Payload) ----
@@ -131,6 +130,7 @@ type c25Rig struct {
 	obs      *c25Obs
 	cfgH     *clientConfigSessionHandler
 	backend2 *g7Conn // second (in-flight) backend connection of the also-inflight / forge-transition situations
+	mgr      *c25Events
 }
 
 func c25NewRig(handler string, modern bool, registrar []string, sub string, existing int) *c25Rig {
@@ -141,6 +141,9 @@ func c25NewRigFor(c c25Case) *c25Rig {
 	handler, modern, registrar, sub, existing := c.Handler, c.Modern, c.Registrar, c.Sub, c.Existing
 	r := &c25Rig{w: g7NewWorld(), obs: &c25Obs{}}
 	r.events = r.w.Events
+	// the recording manager of the kit, wrapped so that FireParallel's after-callbacks can be held back
+	r.mgr = &c25Events{g7Events: r.w.Events}
+	r.w.Proxy.event = r.mgr
 	r.protocol = g7Legacy
 	if modern {
 		r.protocol = g7Modern
@@ -170,7 +173,7 @@ func c25NewRigFor(c c25Case) *c25Rig {
 		r.client.connType = phase.LegacyForge
 		r.backend.connType = phase.LegacyForge
 	}
-	r.player = r.w.player("Alice", uuid.OfflinePlayerUUID("Alice"), r.client, true)
+	r.player = c25Player(r.w, r.mgr, "Alice", r.client)
 	if c.ConnType == "forge-complete" {
 		r.player.SetPhase(phase.CompleteLegacyForgeHandshakeClientPhase)
 	}
@@ -674,16 +677,24 @@ func c25RunHistory(handler string, h []int) bfs.Outcome {
 }
 
 type c25Replay struct {
-	Mode    string  `json:"mode"`
-	Case    c25Case `json:"case"`
-	Handler string  `json:"handler,omitempty"`
-	History []int   `json:"history,omitempty"`
+	Mode    string   `json:"mode"`
+	Pair    *c25Pair `json:"pair,omitempty"`
+	Case    c25Case  `json:"case"`
+	Handler string   `json:"handler,omitempty"`
+	History []int    `json:"history,omitempty"`
 }
 
 func TestVerif(t *testing.T) {
 	vrt.Run(t, "C25", func(r *vrt.R) {
 		var rp c25Replay
 		if r.ReplayInto(&rp) {
+			if rp.Mode == "pair" && rp.Pair != nil {
+				fails, _ := c25CheckPair(*rp.Pair)
+				for _, f := range fails {
+					r.Violation(f.key, f.desc, rp)
+				}
+				return
+			}
 			if rp.Mode == "history" {
 				if out := c25RunHistory(rp.Handler, rp.History); out.FailKey != "" {
 					r.Violation(out.FailKey, out.FailDesc, rp)
@@ -726,6 +737,30 @@ func TestVerif(t *testing.T) {
 			}
 		}
 		r.Extra("cases", len(cases))
+		pairs := c25PairCases()
+		for i, c := range pairs {
+			if !r.Mine(i) {
+				continue
+			}
+			if r.Expired() {
+				break
+			}
+			c := c
+			fails, nEv := c25CheckPair(c)
+			r.Eval(1)
+			mode := "sync"
+			if c.Deferred {
+				mode = "deferred-callback"
+			}
+			r.Class(fmt.Sprintf("pair:%s:%s:events=%d", c.Handler, mode, nEv))
+			if nEv > 0 {
+				r.Nontrivial(1)
+			}
+			for _, f := range fails {
+				r.Violation(f.key, f.desc, c25Replay{Mode: "pair", Pair: &c})
+			}
+		}
+		r.Extra("pairs", len(pairs))
 		depth := 3
 		if r.Thorough() {
 			depth = 5
